@@ -12,7 +12,7 @@ RULE = (
     "K in 1..6, n in K..40, true labels covering 0..K-1 by construction, predictions in 0..K-1 (random, all correct, one wrong, all wrong, "
     "a true class never predicted), passed as lists or ndarrays; oracle = the definitions of the statement evaluated with exact rationals "
     "(accuracy, bounds, ==1 iff all correct, confusion matrix = pair counts, per-label accuracy = recall, purity in (0,1] and ==1 iff every predicted group is pure); "
-    "normalize: matrices with >= 2 rows of small dyadic values, every non-constant column compared with (v-mean)/population-std. "
+    "normalize: matrices with >= 2 rows of small dyadic values plus per-column offsets up to 1.6e9 (|mean| >> std), every non-constant column compared with (v-mean)/population-std. "
     "non-trivial: K >= 2, unbalanced class counts, >= 1 error and >= 1 correct prediction (or, for normalize, >= 2 non-constant columns); distinct by case hash"
 )
 ASSUMPTIONS = ["column standard deviation = population standard deviation (numpy default, ddof=0)", "tolerance 1e-12 (measures), 1e-9 relative (normalize)"]
@@ -59,6 +59,9 @@ def _norm_case(draw):
     c = draw(st.integers(1, 5))
     e = st.one_of(st.integers(-50, 50).map(float), st.integers(-4096, 4096).map(lambda k: k / 64.0))
     A = draw(st.lists(st.lists(e, min_size=c, max_size=c), min_size=r, max_size=r))
+    # columns with a large common offset (|mean| >> std): timestamps, 1e8 + {0, 1}, ...
+    offs = draw(st.lists(st.sampled_from([0.0, 0.0, 1e6, 1e8, 1.6e9, -1e7]), min_size=c, max_size=c))
+    A = [[v + o for v, o in zip(row, offs)] for row in A]
     return {"t": "normalize", "A": A}
 
 
@@ -91,7 +94,9 @@ def check_case(case):
             for i in range(r):
                 ref = float(col[i] - mean) / sd
                 got = float(out[i][j])
-                require(math.isfinite(got) and abs(got - ref) <= 1e-9 * (1 + abs(ref)), "normalize:zscore", lambda: "column %d row %d: got %r expected %r (A=%r)" % (j, i, got, ref, case["A"]))
+                # conditioning: mean and deviations carry an absolute error of about eps*|mean|
+                tol = (1e-9 + 16 * 2.220446049250313e-16 * abs(float(mean)) / sd) * (1 + abs(ref))
+                require(math.isfinite(got) and abs(got - ref) <= tol, "normalize:zscore", lambda: "column %d row %d: got %r expected %r (A=%r)" % (j, i, got, ref, case["A"]))
         return Outcome.ok(nontrivial=nonconst >= 2, classes=["normalize", "nonconst_cols=%d" % min(nonconst, 3)])
 
     lab, pr = case["labels"], case["preds"]
